@@ -31,6 +31,9 @@ pub struct Step {
     /// blame a thread id that is not part of the target (the dumping process itself)
     #[serde(default)]
     pub blamed_foreign: bool,
+    /// make this request fail: 1 = destination I/O error at call k, 2 = unreadable app memory region
+    #[serde(default)]
+    pub fail: Option<(u8, u8)>,
 }
 
 #[derive(Debug, Clone, PartialEq, Eq, Hash, Serialize, Deserialize)]
@@ -87,6 +90,9 @@ pub fn check(c: &Case) -> Verdict {
             let off = *off as u64 % 0x3000;
             o.app_memory.push((appmap + off, 1 + (*len as u64 % (0x4000 - off))));
         }
+        if let Some((2, _)) = s.fail {
+            o.app_memory.push((0x3000_0000_0000, 64));
+        }
         o.principal = match s.principal {
             None => None,
             Some(None) => Some(0x3000_0000_0000),
@@ -135,14 +141,21 @@ pub fn check(c: &Case) -> Verdict {
         if !t.wait_settled(&alive_spec) {
             return Verdict::Inconclusive("target did not settle between dumps".into());
         }
-        let mut d1 = Dest::new(vec![], 0);
+        let fault = match s.fail {
+            Some((1, k)) => crate::vcore::dest::Fault::ErrAt(2 + k as u64 % 60),
+            _ => crate::vcore::dest::Fault::None,
+        };
+        let mut d1 = Dest::new(vec![], 0).with_fault(fault);
         let r1 = run_dump(&mut w, &mut d1);
         if !t.wait_settled(&alive_spec) {
             return Verdict::Inconclusive("target did not settle between dumps".into());
         }
         let mut fresh = make_writer(pid, &o);
-        let mut d2 = Dest::new(vec![], 0);
+        let mut d2 = Dest::new(vec![], 0).with_fault(fault);
         let r2 = run_dump(&mut fresh, &mut d2);
+        if s.fail.is_some() {
+            classes.push("failed-request-in-history".to_string());
+        }
         match (r1, r2) {
             (DumpOutcome::Panic(l, m), _) | (_, DumpOutcome::Panic(l, m)) => return panic_verdict(&l, &m),
             (DumpOutcome::Ok(a), DumpOutcome::Ok(bb)) => {
@@ -212,8 +225,9 @@ fn step_strategy() -> impl Strategy<Value = Step> {
         any::<bool>(),
         proptest::option::weighted(0.3, any::<u16>()),
         proptest::bool::weighted(0.2),
+        proptest::option::weighted(0.3, (1u8..3, any::<u8>())),
     )
-        .prop_map(|(blamed, crash, crash_rip_in_map, app, skip, principal, sanitize, cue, blamed_foreign)| Step { blamed, crash, crash_rip_in_map, app, skip, principal, sanitize, cue, blamed_foreign })
+        .prop_map(|(blamed, crash, crash_rip_in_map, app, skip, principal, sanitize, cue, blamed_foreign, fail)| Step { blamed, crash, crash_rip_in_map, app, skip, principal, sanitize, cue, blamed_foreign, fail })
 }
 
 pub fn run(ctx: &mut LaneCtx) {
@@ -222,7 +236,7 @@ pub fn run(ctx: &mut LaneCtx) {
         SubSpec {
             name: "reuse-history",
             cases: (160, 15_000),
-            rule: "one writer, 2..5 dump() calls; between calls the public configuration (blamed thread, crash context on/off, app memory, principal address, skip, sanitize) may change and an exiter thread may be cued; after each call a freshly configured writer dumps the same blocked target; oracle = strict structure of both + normal-form equality; non-trivial = >= 2 calls with a memory-producing option or a change between calls; distinct = hash of case",
+            rule: "one writer, 2..5 dump() calls, some of which are made to fail (destination I/O error at a generated call, unreadable app memory); between calls the public configuration (blamed thread, crash context on/off, app memory, principal address, skip, sanitize) may change and an exiter thread may be cued; after each call a freshly configured writer dumps the same blocked target; oracle = strict structure of both + normal-form equality; non-trivial = >= 2 calls with a memory-producing option or a change between calls; distinct = hash of case",
             strategy: (0u8..6, 0u8..3, proptest::option::weighted(0.3, 0u32..20_000), proptest::collection::vec(step_strategy(), 2..6)).prop_map(|(parked, exiters, limit, steps)| Case { parked, exiters, limit, steps }).boxed(),
             max_shrink_iters: 100,
             log_current: true,
